@@ -167,7 +167,11 @@ func registerRevocationModels(P *Program) {
 		if !ex.branch(smt.Le(b1, smt.I64(int64(buf.Len-2)))) {
 			return fail("multihash: length greater than remaining number of bytes")
 		}
-		n := ex.concretize(b1, "multihash length")
+		conds := make([]*smt.Term, buf.Len-1)
+		for k := range conds {
+			conds[k] = smt.Eq(b1, smt.I64(int64(k)))
+		}
+		n := ex.choose(conds)
 		res := ex.zero(fn.Signature.Results().At(0).Type().(*types.Pointer).Elem()).(*Struct)
 		// DecodedMultihash{Code uint64, Name string, Length int, Digest []byte}
 		res.F[0] = b0
